@@ -31,6 +31,7 @@ import (
 	"strings"
 	"time"
 
+	"istio.io/istio/pilot/pkg/xds"
 	"verifharness/internal/wire"
 )
 
@@ -45,6 +46,14 @@ type CutSpec struct {
 	KeepNonce bool     `json:"keep_nonce,omitempty"`
 	Overlap   bool     `json:"overlap,omitempty"` // reconnect first, the old streams terminate afterwards (same server only)
 	After     []Op     `json:"after,omitempty"`   // changes made after the reconnect (and after the old streams are gone)
+	// round 3
+	Probe     bool     `json:"probe_first,omitempty"` // a health probe of the agent reaches the server before the first xDS request of the new stream
+	Hot       bool     `json:"hot,omitempty"`         // reconnect into a NON-quiescent server: the away changes are made and the proxies reconnect at once (same server)
+	AgainK    int      `json:"again_k,omitempty"`     // a second fault during the resync: the reconnected stream dies at its AgainK-th response, the proxy reconnects once more
+	AgainFate string   `json:"again_fate,omitempty"`
+	Nds       bool     `json:"nds,omitempty"`        // the proxies capture DNS: they also subscribe to the name table (NDS)
+	NackFirst []string `json:"nack_first,omitempty"` // types whose first request on the new stream is the NACK the proxy could not send before the old stream broke (error_detail set)
+	Wide      bool     `json:"wide,omitempty"`       // history drawn from the wide grammar (PeerAuthentication, EnvoyFilter with ECDS)
 	// zt flavour
 	StaleVersions bool `json:"stale_versions,omitempty"` // present wrong versions for some retained resources
 }
@@ -84,6 +93,11 @@ func genC05(r *wire.Rng) *History {
 	}
 	h := &History{Stream: "c05", Flavor: "envoy", Debounce: wire.Pick(r, []int{0, 5, 20}), Explicit: r.Chance(1, 2)}
 	clock := 0
+	wide := r.Chance(1, 3)
+	if wide {
+		wideGrammar = true
+		defer func() { wideGrammar = false }()
+	}
 	h.Base = genBase(r, &clock)
 	w := newWorld(false)
 	for _, o := range h.Base {
@@ -108,6 +122,9 @@ func genC05(r *wire.Rng) *History {
 	}
 	if c.Mode == "at-response" || c.Mode == "initial" {
 		c.K = 1 + r.Intn(5)
+		if c.Mode == "initial" && r.Chance(1, 6) {
+			c.K = 0 // the stream dies before any response: the first requests may or may not have been read
+		}
 		c.Fate = wire.Pick(r, []string{"applied", "applied", "lost", "failed-send"})
 	}
 	n := r.Intn(5)
@@ -132,8 +149,54 @@ func genC05(r *wire.Rng) *History {
 			c.After = append(c.After, o)
 		}
 	}
+	c.Wide = wide
+	c.Probe = r.Chance(1, 4)
+	c.Nds = r.Chance(1, 2)
+	if !c.Second && len(c.Away) > 0 && r.Chance(1, 3) {
+		c.Hot = true
+	}
+	if !c.Overlap && r.Chance(1, 4) {
+		c.AgainK = 1 + r.Intn(4)
+		c.AgainFate = wire.Pick(r, []string{"applied", "lost", "failed-send"})
+	}
+	if r.Chance(1, 4) {
+		c.NackFirst = wire.Subset(r, envoyTypes, 1, 2)
+		if len(c.NackFirst) == 0 {
+			c.NackFirst = []string{"CDS"}
+		}
+	}
 	h.Cut = c
 	return h
+}
+
+// pushSlotsLeaked: after a cut the server must get all its push slots back - the push that was on its way to
+// the dead stream is marked done and its semaphore token returned (doSendPushes, `case <-closed`). At rest the
+// sender loop itself holds one token and nothing is in the processing table.
+func pushSlotsLeaked(st *site) (bool, map[string]any) {
+	var tokens, processing, gone int
+	deadline := time.Now().Add(2 * time.Second)
+	for {
+		t, q, _ := xds.VerifC02ServerState(st.s.Discovery)
+		reg := map[string]bool{}
+		for _, c := range st.s.Discovery.AllClients() {
+			reg[c.ID()] = true
+		}
+		tokens, processing, gone = t, len(q.Processing), 0
+		for c := range q.Processing {
+			if !reg[c.ID()] {
+				gone++
+			}
+		}
+		if gone == 0 && tokens <= 1+processing {
+			return false, nil
+		}
+		if time.Now().After(deadline) {
+			break
+		}
+		time.Sleep(20 * time.Millisecond)
+	}
+	return true, map[string]any{"semaphore_tokens": tokens, "processing": processing, "processing_for_closed_connections": gone,
+		"expected": "one token (the sender loop), nothing in processing for a connection that is gone"}
 }
 
 // registeredIDs: the connection IDs the server has registered (adsClients) for this client's proxy.
@@ -190,6 +253,14 @@ func runC05(h *History, stt *stats) result {
 	sotw := newEnvoy("sotw", false, "app-sotw")
 	delta := newEnvoy("delta", true, "app-delta")
 	delta.explicit = h.Explicit
+	sotw.nds, delta.nds = c.Nds, c.Nds
+	types := append([]string{}, envoyTypes...)
+	if c.Wide {
+		types = append(types, "ECDS")
+	}
+	if c.Nds {
+		types = append(types, "NDS")
+	}
 	both := []*envoy{sotw, delta}
 	defer func() {
 		for _, e := range both {
@@ -218,7 +289,12 @@ func runC05(h *History, stt *stats) result {
 		}
 		return false
 	}
-	if c.Mode == "initial" {
+	if c.Mode == "initial" && c.K == 0 {
+		for _, e := range both {
+			e.connect(st, connectOpts{})
+			e.disconnect()
+		}
+	} else if c.Mode == "initial" {
 		for _, e := range both {
 			e.connect(st, connectOpts{cutAfter: c.K, cutDrop: c.Fate == "lost" || c.Fate == "failed-send", cutErr: c.Fate == "failed-send"})
 		}
@@ -292,20 +368,39 @@ func runC05(h *History, stt *stats) result {
 	retained := map[string]held{}
 	for _, e := range both {
 		retained[e.label] = e.snapshot()
-		stt.Retained += countHeld(retained[e.label], envoyTypes)
+		stt.Retained += countHeld(retained[e.label], types)
 	}
 	if errs := append(sotw.errors(), delta.errors()...); len(errs) > 0 {
 		return result{Clause: "harness-client-error", Detail: map[string]any{"phase": "before reconnect", "errors": errs}}
 	}
 
 	// --- phase 2: changes while away
-	for _, o := range c.Away {
-		if r := applyStep(st, w, []Op{o}, stt); r != nil {
-			return *r
+	hot := c.Hot && !c.Second && len(c.Away) > 0
+	if hot {
+		// the proxies come back while the server is still digesting the changes (debounce, push context
+		// initialisation, push round): their registration races with the publication
+		stt.Reconnects["into-non-quiescent-server"]++
+		for _, o := range c.Away {
+			if err := st.apply(w, o); err != nil {
+				return result{Clause: "harness-apply-error", Detail: map[string]any{"op": o, "err": err.Error()}}
+			}
+			stt.Ops[o.K]++
 		}
-	}
-	if !st.quiesce() {
-		return timeoutResult("server quiescence while away", nil)
+	} else {
+		for _, o := range c.Away {
+			if r := applyStep(st, w, []Op{o}, stt); r != nil {
+				return *r
+			}
+		}
+		if !st.quiesce() {
+			if leaked, d := pushSlotsLeaked(st); leaked {
+				return result{Clause: "push-slot-leaked-after-cut", Detail: merge(d, map[string]any{"cut": cutLog})}
+			}
+			return timeoutResult("server quiescence while away", nil)
+		}
+		if leaked, d := pushSlotsLeaked(st); leaked {
+			return result{Clause: "push-slot-leaked-after-cut", Detail: merge(d, map[string]any{"cut": cutLog})}
+		}
 	}
 
 	// --- phase 3: reconnect
@@ -325,9 +420,57 @@ func runC05(h *History, stt *stats) result {
 	if c.KeepNonce {
 		stt.Reconnects["sotw-keeps-nonce"]++
 	}
+	nack := map[string]bool{}
+	for _, t := range c.NackFirst {
+		nack[t] = true
+	}
+	if len(nack) > 0 {
+		stt.Reconnects["first-request-is-a-queued-nack"]++
+	}
+	if c.Probe {
+		stt.Reconnects["health-probe-first"]++
+	}
+	if c.AgainK > 0 {
+		// a second fault during the resynchronisation
+		stt.Reconnects["second-fault-during-resync"]++
+		for _, e := range both {
+			e.connect(target, connectOpts{order: c.Order, keepNonce: c.KeepNonce, probeFirst: c.Probe, nackFirst: nack,
+				cutAfter: c.AgainK, cutDrop: c.AgainFate == "lost" || c.AgainFate == "failed-send", cutErr: c.AgainFate == "failed-send"})
+		}
+		deadline := time.Now().Add(settleTime)
+		for time.Now().Before(deadline) && !(sotw.isDead() && delta.isDead()) {
+			var live []activity
+			for _, e := range both {
+				if !e.isDead() {
+					live = append(live, looseActivity{e})
+				}
+			}
+			if target.quiesceFor(calmTime, live...) {
+				break
+			}
+		}
+		for _, e := range both {
+			e.disconnect()
+		}
+		// what the second stream delivered is retained as well
+		for _, e := range both {
+			retained[e.label] = e.snapshot()
+		}
+		if errs := append(sotw.errors(), delta.errors()...); len(errs) > 0 {
+			return result{Clause: "harness-client-error", Detail: map[string]any{"phase": "second fault", "errors": errs}}
+		}
+		// the third stream asks in the reverse order
+		rev := append([]string{}, c.Order...)
+		for i, j := 0, len(rev)-1; i < j; i, j = i+1, j-1 {
+			rev[i], rev[j] = rev[j], rev[i]
+		}
+		c = &CutSpec{Mode: c.Mode, K: c.K, Fate: c.Fate, Away: c.Away, Second: c.Second, Order: rev, KeepNonce: c.KeepNonce, After: c.After,
+			Probe: c.Probe, Nds: c.Nds, Wide: c.Wide, Overlap: c.Overlap, Hot: c.Hot, AgainK: c.AgainK}
+		nack = map[string]bool{}
+	}
 	firstSent := map[string]map[string]bool{}
 	for _, e := range both {
-		s := e.connect(target, connectOpts{order: c.Order, keepNonce: c.KeepNonce})
+		s := e.connect(target, connectOpts{order: c.Order, keepNonce: c.KeepNonce, probeFirst: c.Probe, nackFirst: nack})
 		e.mu.Lock()
 		firstSent[e.label] = map[string]bool{}
 		for t, n := range s.reqs {
@@ -340,8 +483,26 @@ func runC05(h *History, stt *stats) result {
 	fs := newEnvoy("fresh-sotw", false, "app-fresh-sotw")
 	fd := newEnvoy("fresh-delta", true, "app-fresh-delta")
 	fd.explicit = h.Explicit
+	fs.nds, fd.nds = c.Nds, c.Nds
 	fresh := map[string]*envoy{"sotw": fs, "delta": fd}
 	if !target.quiesceLoose(sotw, delta) {
+		// a reconnected stream on which the server has not sent anything and is not even reading the requests
+		// any more is not a slow harness: the proxy is never served (e.g. the connection was never initialised)
+		var stuck []string
+		for _, e := range both {
+			e.mu.Lock()
+			if e.st != nil && !e.st.dead && e.st.nResp == 0 && e.st.queued.Load() > 0 {
+				stuck = append(stuck, e.label)
+			}
+			e.mu.Unlock()
+		}
+		if len(stuck) > 0 {
+			return result{Clause: "reconnect-request-unanswered", Detail: merge(map[string]any{"unanswered": stuck,
+				"what": "no response at all on the new stream and the server stopped reading it"}, merge(clientInfo(sotw, delta), map[string]any{"cut": cutLog}))}
+		}
+		if leaked, d := pushSlotsLeaked(target); leaked {
+			return result{Clause: "push-slot-leaked-after-cut", Detail: merge(d, map[string]any{"cut": cutLog})}
+		}
 		return timeoutResult("after reconnect", merge(clientInfo(sotw, delta), map[string]any{"cut": cutLog}))
 	}
 	info := func() map[string]any {
@@ -351,8 +512,8 @@ func runC05(h *History, stt *stats) result {
 	var unanswered []string
 	for _, e := range both {
 		e.mu.Lock()
-		for _, t := range envoyTypes {
-			wanted := t == "CDS" || t == "LDS" || len(e.subs[t]) > 0
+		for _, t := range types {
+			wanted := t == "CDS" || t == "LDS" || t == "NDS" || len(e.subs[t]) > 0
 			if firstSent[e.label][t] && e.st.resps[t] == 0 && wanted {
 				unanswered = append(unanswered, e.label+":"+t)
 			}
@@ -365,6 +526,37 @@ func runC05(h *History, stt *stats) result {
 	sort.Strings(unanswered)
 	if len(unanswered) > 0 {
 		return result{Clause: "reconnect-request-unanswered", Detail: merge(map[string]any{"unanswered": unanswered}, info())}
+	}
+	// (a') the server keeps no memory across streams: the new connection watches exactly the types the proxy
+	// asked for on the NEW stream (fresh WatchedResources through initializeProxy), nothing inherited
+	if len(zombies) == 0 {
+		for _, e := range both {
+			want := strings.SplitN(e.nodeID, "~", 4)[2]
+			e.mu.Lock()
+			asked := map[string]bool{}
+			for t, n := range e.st.reqs {
+				if n > 0 {
+					asked[longType[t]] = true
+				}
+			}
+			e.mu.Unlock()
+			for _, c := range target.s.Discovery.AllClients() {
+				p := c.Proxy()
+				if p == nil || p.ID != want {
+					continue
+				}
+				var extra []string
+				for t := range p.GetWatchedResourceTypes() {
+					if !asked[t] {
+						extra = append(extra, shortType(t))
+					}
+				}
+				if len(extra) > 0 {
+					sort.Strings(extra)
+					return result{Clause: "reconnect-inherited-watch", Detail: merge(map[string]any{"client": e.label, "watched_but_never_requested_on_this_stream": extra}, info())}
+				}
+			}
+		}
 	}
 
 	if len(zombies) > 0 {
@@ -420,8 +612,8 @@ func runC05(h *History, stt *stats) result {
 		for _, e := range both {
 			a, b := e.snapshot(), fresh[e.label].snapshot()
 			stt.Comparisons++
-			stt.Compared += countHeld(b, envoyTypes)
-			for _, d := range compareHeld(a, b, envoyTypes) {
+			stt.Compared += countHeld(b, types)
+			for _, d := range compareHeld(a, b, types) {
 				d.Type = e.label + ":" + d.Type
 				out = append(out, d)
 			}
@@ -468,8 +660,12 @@ func runC05(h *History, stt *stats) result {
 		return result{Clause: clause, Detail: merge(map[string]any{"n": len(df), "diff": limitDiffs(df, 8), "a": "reconnected client",
 			"b": "brand-new client", "not_removed": notRemoved}, info())}
 	}
+	if leaked, d := pushSlotsLeaked(st); leaked {
+		return result{Clause: "push-slot-leaked-after-cut", Detail: merge(d, info())}
+	}
 	hd := delta.snapshot()
 	return result{OK: true, Summary: "c05 envoy cut=" + c.Mode + " k=" + itoa(c.K) + " prefix=" + itoa(len(h.Steps)) + " away=" + itoa(len(c.Away)) +
-		" second=" + wire.B(c.Second) + " overlap=" + wire.B(len(zombies) > 0) + " after=" + itoa(len(c.After)) + " first=" + c.Order[0] + " retained=" + itoa(countHeld(retained["delta"], envoyTypes)) + " gone=" + itoa(gone) +
+		" second=" + wire.B(c.Second) + " overlap=" + wire.B(len(zombies) > 0) + " after=" + itoa(len(c.After)) + " hot=" + wire.B(hot) + " again=" + itoa(c.AgainK) + " probe=" + wire.B(c.Probe) +
+		" nds=" + wire.B(c.Nds) + " wide=" + wire.B(c.Wide) + " nack=" + itoa(len(h.Cut.NackFirst)) + " first=" + c.Order[0] + " retained=" + itoa(countHeld(retained["delta"], types)) + " gone=" + itoa(gone) +
 		" held=" + itoa(len(hd["CDS"])) + "/" + itoa(len(hd["EDS"])) + "/" + itoa(len(hd["LDS"])) + "/" + itoa(len(hd["RDS"]))}
 }
